@@ -34,6 +34,7 @@ import (
 	"strings"
 	"sync"
 	"testing"
+	"time"
 
 	"pgregory.net/rapid"
 )
@@ -142,14 +143,47 @@ func selected(name string) bool {
 }
 
 // guard runs check, converting a panic of the code under test (or the oracle)
-// into a failure so that it is reported with a replay file.
-func guard[C any](check func(C) Result, c C) (res Result) {
-	defer func() {
-		if r := recover(); r != nil {
-			res = Result{NonTrivial: true, Fail: Failf("panic", "panic: %v\n%s", r, debug.Stack())}
-		}
+// into a failure so that it is reported with a replay file. A case that does
+// not finish within the watchdog period (default 60 s; cases take micro- to
+// milliseconds) is reported as a hang: the case is saved, statistics are
+// flushed and the process exits, because the stuck goroutine cannot be stopped
+// and shrinking would only stack up more of them.
+func guard[C any](name string, check func(C) Result, c C) Result {
+	done := make(chan Result, 1)
+	go func() {
+		var res Result
+		defer func() {
+			if r := recover(); r != nil {
+				res = Result{NonTrivial: true, Fail: Failf("panic", "panic: %v\n%s", r, debug.Stack())}
+			}
+			done <- res
+		}()
+		res = check(c)
 	}()
-	return check(c)
+	timer := time.NewTimer(caseTimeout())
+	defer timer.Stop()
+	select {
+	case res := <-done:
+		return res
+	case <-timer.C:
+		f := Failf("hang", "case did not finish within %v", caseTimeout())
+		raw := render(c)
+		statsFor(name).record(raw, Result{NonTrivial: true, Fail: f})
+		path := saveFailure(name, raw, f)
+		fmt.Printf("VERIF-FAIL sub=%s sig=hang replay=%s\n", name, path)
+		flushStats()
+		os.Exit(3)
+	}
+	panic("unreachable")
+}
+
+func caseTimeout() time.Duration {
+	if v := os.Getenv("VERIF_CASE_TIMEOUT"); v != "" {
+		if d, err := time.ParseDuration(v); err == nil {
+			return d
+		}
+	}
+	return 60 * time.Second
 }
 
 func (s *sub[C]) run(t *testing.T) {
@@ -160,7 +194,7 @@ func (s *sub[C]) run(t *testing.T) {
 	st.requested += n
 	rapid.Check(t, func(rt *rapid.T) {
 		c := s.gen(rt)
-		res := guard(s.check, c)
+		res := guard(s.name, s.check, c)
 		raw := render(c)
 		st.record(raw, res)
 		if res.Fail != nil {
@@ -174,7 +208,7 @@ func (s *sub[C]) fuzz(f *testing.F) {
 	st := statsFor(s.name)
 	f.Fuzz(rapid.MakeFuzz(func(rt *rapid.T) {
 		c := s.gen(rt)
-		res := guard(s.check, c)
+		res := guard(s.name, s.check, c)
 		raw := render(c)
 		st.record(raw, res)
 		if res.Fail != nil {
@@ -190,7 +224,7 @@ func (s *sub[C]) replay(t *testing.T, raw json.RawMessage, file string) {
 	if err := dec.Decode(&c); err != nil {
 		t.Fatalf("replay %s: cannot decode case: %v", file, err)
 	}
-	res := guard(s.check, c)
+	res := guard(s.name, s.check, c)
 	st := statsFor("replay:" + s.name)
 	st.record(render(c), res)
 	if res.Fail != nil {
@@ -490,4 +524,21 @@ func Main(m *testing.M) {
 func ReportFuzz(t *testing.T, sub string, c any, f *Failure) {
 	path := saveFailure(sub, render(c), f)
 	t.Fatalf("VERIF-FAIL sub=%s sig=%s replay=%s\n%s", sub, f.Sig, path, f.Msg)
+}
+
+// Shard returns this process's shard index and the number of shards.
+func Shard() (int, int) {
+	s, _ := strconv.Atoi(envOr("VERIF_SHARD", "0"))
+	n, _ := strconv.Atoi(envOr("VERIF_NSHARDS", "1"))
+	if n < 1 {
+		n = 1
+	}
+	return s % n, n
+}
+
+// ReportEnum reports a failure found by an enumeration test (a plain Go test that
+// walks a finite space and calls a sub's check directly).
+func ReportEnum(t *testing.T, sub string, c any, f *Failure) {
+	path := saveFailure(sub, render(c), f)
+	t.Errorf("VERIF-FAIL sub=%s sig=%s replay=%s\n%s", sub, f.Sig, path, f.Msg)
 }
